@@ -1,7 +1,7 @@
 ----------------------------- MODULE PurlSystem -----------------------------
 (***************************************************************************)
-(* A closed client session with the library: one builder slot, one value   *)
-(* slot, one string slot.  Strings come from Display of values, values     *)
+(* A closed client session with the library: one builder slot, two value   *)
+(* slots (the current one and a saved one), one string slot.  Strings come from Display of values, values     *)
 (* from the parser or from build(), builders from new() or into_builder()  *)
 (* - so parse, format, build and re-build are composed to any depth, which *)
 (* is what "for all PURL values, however obtained" means operationally.    *)
@@ -14,26 +14,39 @@
 (*   Respell(m)       s := another legal spelling of s (upper-case type,   *)
 (*                         extra slashes, lower-case hex escapes)          *)
 (*   Parse            v := ParseF(s)                                       *)
+(*   Ser / De         the same two steps through serde (C16: the serde     *)
+(*                    form IS the string form, so the model has one        *)
+(*                    definition for both)                                 *)
+(*   Save             w := clone of v                                      *)
+(*   Swap             v, w exchanged                                       *)
+(*   Compare          observation: v = w ?  (==, hash, cmp, strings, C19)  *)
+(*   NewCombined(t,c) b := builder_with_combined_name (typed sessions)     *)
+(*   CombinedName     observation: combined_name() of v (typed sessions)   *)
 (* `log` records every step with the projection the implementation must    *)
 (* show after it; it is a history variable (simulation configs only).      *)
 (***************************************************************************)
 EXTENDS PurlBuilder
 CONSTANTS Shape,        \* Generic or Typed
-          TypesU, NamesU, OpsU
+          TypesU, NamesU, OpsU, CombU
 
 \* a slot is [some |-> FALSE] or [some |-> TRUE, x |-> content]
 None == [some |-> FALSE]
 Just(x) == [some |-> TRUE, x |-> x]
 IsNone(x) == ~x.some
-VARIABLES b, v, s, err, log
-svars == <<b, v, s, err, log>>
-Init == b = None /\ v = None /\ s = None /\ err = None /\ log = <<>>
+VARIABLES b, v, w, s, err, log
+svars == <<b, v, w, s, err, log>>
+Init == b = None /\ v = None /\ w = None /\ s = None /\ err = None /\ log = <<>>
 
-Proj(bb, vv, ss, ee) == [b |-> bb, v |-> vv, s |-> ss, err |-> ee]
-Rec(step, bb, vv, ss, ee) == log' = Append(log, [step |-> step, after |-> Proj(bb, vv, ss, ee)])
+RecW(step, bb, vv, ww, ss, ee) == log' = Append(log, [step |-> step, after |-> [b |-> bb, v |-> vv, w |-> ww, s |-> ss, err |-> ee]])
+\* every step but Save and Swap leaves the saved value alone
+Rec(step, bb, vv, ss, ee) == UNCHANGED w /\ RecW(step, bb, vv, w, ss, ee)
 
 New(t, n) == LET nb == Just([st |-> t, parts |-> [NoParts EXCEPT !.name = n]]) IN
              /\ b' = nb /\ UNCHANGED <<v, s>> /\ err' = None /\ Rec(<<"new", t, n>>, nb, v, s, None)
+\* Purl::builder_with_combined_name (typed sessions; CombU is empty otherwise)
+NewCombined(t, c) == LET sp == SplitCombined(t, c)
+                         nb == Just([st |-> t, parts |-> [NoParts EXCEPT !.ns = sp.ns, !.name = sp.name]]) IN
+             /\ b' = nb /\ UNCHANGED <<v, s>> /\ err' = None /\ Rec(<<"new_combined", t, c>>, nb, v, s, None)
 Op(op) == /\ ~IsNone(b)
           /\ LET r == Apply(b.x, op, LowerTab) IN
              IF r.ok THEN b' = Just(r.b) /\ err' = None /\ UNCHANGED <<v, s>> /\ Rec(<<"op", op>>, Just(r.b), v, s, None)
@@ -45,8 +58,9 @@ Build == /\ ~IsNone(b)
 IntoBuilder == /\ ~IsNone(v)
                /\ LET nb == Just([st |-> v.x.type, parts |-> PartsOf(v.x)]) IN
                   b' = nb /\ v' = None /\ err' = None /\ UNCHANGED s /\ Rec(<<"into_builder">>, nb, None, s, None)
-Format == /\ ~IsNone(v)
-          /\ LET str == Just(FormatSpec(v.x)) IN s' = str /\ UNCHANGED <<b, v>> /\ err' = None /\ Rec(<<"format">>, b, v, str, None)
+\* Display and Serialize write the same string (C16)
+Format(how) == /\ ~IsNone(v)
+               /\ LET str == Just(FormatSpec(v.x)) IN s' = str /\ UNCHANGED <<b, v>> /\ err' = None /\ Rec(<<how>>, b, v, str, None)
 \* legal respellings of a canonical string
 RECURSIVE LowerHexEscapes(_)
 LowerHexEscapes(x) == IF x = <<>> THEN <<>>
@@ -58,13 +72,27 @@ Respelled(m, x) == CASE m = "slashes" -> PKG \o <<SLASH, SLASH>> \o Drop(x, 4)
                      [] m = "lowerhex" -> LowerHexEscapes(x)
 Respell(m) == /\ ~IsNone(s) /\ StartsWith(s.x, PKG)
               /\ LET str == Just(Respelled(m, s.x)) IN s' = str /\ UNCHANGED <<b, v>> /\ err' = None /\ Rec(<<"respell", m>>, b, v, str, None)
-Parse == /\ ~IsNone(s)
-         /\ LET r == ParseF(s.x, Shape, LowerTab) IN
-            IF r.ok THEN v' = Just(r.v) /\ err' = None /\ UNCHANGED <<b, s>> /\ Rec(<<"parse">>, b, Just(r.v), s, None)
-            ELSE v' = v /\ err' = Just(r.err) /\ UNCHANGED <<b, s>> /\ Rec(<<"parse">>, b, v, s, Just(r.err))
+\* FromStr and Deserialize read the same language (C16)
+Parse(how) == /\ ~IsNone(s)
+              /\ LET r == ParseF(s.x, Shape, LowerTab) IN
+                 IF r.ok THEN v' = Just(r.v) /\ err' = None /\ UNCHANGED <<b, s>> /\ Rec(<<how>>, b, Just(r.v), s, None)
+                 ELSE v' = v /\ err' = Just(r.err) /\ UNCHANGED <<b, s>> /\ Rec(<<how>>, b, v, s, Just(r.err))
+Save == /\ ~IsNone(v)
+        /\ w' = v /\ UNCHANGED <<b, v, s>> /\ err' = None /\ RecW(<<"save">>, b, v, v, s, None)
+Swap == /\ ~IsNone(v) \/ ~IsNone(w)
+        /\ w' = v /\ v' = w /\ UNCHANGED <<b, s>> /\ err' = None /\ RecW(<<"swap">>, b, w, v, s, None)
+\* observations: the state is unchanged, the log says what the client must see
+SameValue == v.x = w.x
+Compare == /\ ~IsNone(v) /\ ~IsNone(w)
+           /\ UNCHANGED <<b, v, s>> /\ err' = None /\ Rec(<<"compare", SameValue>>, b, v, s, None)
+CombinedName == /\ ~IsNone(v) /\ Shape = Typed
+                /\ UNCHANGED <<b, v, s>> /\ err' = None /\ Rec(<<"combined_name", JoinCombined(v.x)>>, b, v, s, None)
 Next == \/ \E t \in TypesU, n \in NamesU : New(t, n)
+        \/ \E t \in TypesU, c \in CombU : NewCombined(t, c)
         \/ \E op \in OpsU : Op(op)
-        \/ Build \/ IntoBuilder \/ Format \/ Parse
+        \/ Build \/ IntoBuilder \/ Save \/ Swap \/ Compare \/ CombinedName
+        \/ \E how \in {"format", "ser"} : Format(how)
+        \/ \E how \in {"parse", "de"} : Parse(how)
         \/ \E m \in {"slashes", "uppertype", "lowerhex"} : Respell(m)
 Spec == Init /\ [][Next]_svars
 
@@ -74,4 +102,7 @@ SysValid == ~IsNone(v) => Valid(v.x)
 SysStringParses == (~IsNone(s)) => LET r == ParseF(s.x, Shape, LowerTab) IN
                                    r.ok /\ ParseF(FormatSpec(r.v), Shape, LowerTab) = r
 SysRebuild == ~IsNone(v) => Rebuild(Shape, v.x, LowerTab) = [ok |-> TRUE, v |-> v.x]
+\* two values of one session, however obtained, are equal exactly when their strings are (C19)
+SysCompare == (~IsNone(v) /\ ~IsNone(w)) => ((v.x = w.x) <=> (FormatSpec(v.x) = FormatSpec(w.x)))
+SysSavedValid == ~IsNone(w) => Valid(w.x)
 =============================================================================
